@@ -29,6 +29,9 @@ type c18Spec struct {
 	// Via: "" = ValidatingPool.GetWriter directly; "bowl-writer" = through bowl.NewPoolBowl(...).GetWriter (the patcher's
 	// entry writer); "bowl-transpose" = bowl.Transpose copying a target-pool file holding D into the validating pool
 	Via string `json:"via,omitempty"`
+	// Prelude: the SAME pool has already served a complete writer lifetime of this file before the judged one:
+	// "good-first" (the signed content) or "bad-first" (content with a flipped bit per block; its error is ignored)
+	Prelude string `json:"prelude,omitempty"`
 }
 
 var c18SSizes = []int64{0, 1, lib.BS - 1, lib.BS, lib.BS + 1, 2 * lib.BS, 2*lib.BS + 77, 5 * lib.BS}
@@ -140,6 +143,21 @@ func c18Cases(tier string, seed uint64, flavor string) []lib.Case {
 			}
 		}
 	}
+	// the file is written twice through one pool (a retry): the second lifetime is judged
+	for _, ss := range []int64{lib.BS - 1, lib.BS + 1, 2*lib.BS + 77} {
+		for _, dk := range c18DKinds(ss) {
+			for mi, m := range modes {
+				for pi, pre := range []string{"good-first", "bad-first"} {
+					j++
+					if tier != "thorough" && (j+mi+pi)%3 != 0 {
+						continue
+					}
+					s := c18Spec{Seed: lib.Mix(seed, 187, uint64(j)), SSize: ss, DKind: dk[0].(string), Arg: dk[1].(int), Slice: []int{-2, lib.BS + 1, 4096, -1}[j%4], Mode: m, Prelude: pre}
+					cases = append(cases, lib.Case{Seed: s.Seed, Kind: s.DKind + "/" + pre + "/" + m, Spec: lib.MustSpec(s)})
+				}
+			}
+		}
+	}
 	// runs of differing blocks around and beyond the 64-block (4 MiB) wound aggregation limit
 	big := int64(70*lib.BS + 123)
 	for _, run := range []int{63, 64, 65, 66, 69, 70} {
@@ -171,6 +189,9 @@ func (p *recWPool) GetReadSeeker(i int64) (io.ReadSeeker, error) {
 }
 func (p *recWPool) Close() error { return nil }
 func (p *recWPool) GetWriter(i int64) (io.WriteCloser, error) {
+	p.mu.Lock()
+	p.data[i], p.closed[i] = nil, false // a writable pool truncates
+	p.mu.Unlock()
 	return &recW{p: p, i: i}, nil
 }
 
@@ -282,6 +303,7 @@ func c18Run(c lib.Case, env *lib.Env) lib.Result {
 	vp := &pwr.ValidatingPool{Pool: inner, Container: cont, Signature: sig}
 	woundMode := s.Mode == "wound" || s.Mode == "wound-agg"
 	var wounds []*pwr.Wound
+	preludeWounds := false
 	var wg sync.WaitGroup
 	if woundMode {
 		vp.Wounds = make(chan *pwr.Wound)
@@ -308,6 +330,38 @@ func c18Run(c lib.Case, env *lib.Env) lib.Result {
 		}
 	}
 	desc := fmt.Sprintf("|S|=%d D=%s(%d) |D|=%d slice=%d mode=%s b*=%d seed=%d", s.SSize, s.DKind, s.Arg, len(D), s.Slice, s.Mode, bstar, s.Seed)
+	if s.Prelude != "" {
+		desc += " prelude=" + s.Prelude
+		pd := S
+		if s.Prelude == "bad-first" {
+			pd = append([]byte(nil), S...)
+			for b := 0; b < nbS; b++ {
+				blockOf(pd, b)[0] ^= 0x80
+			}
+		}
+		pw, perr := vp.GetWriter(1)
+		if perr != nil {
+			res.Violate("getwriter-error", desc, perr.Error())
+			return res
+		}
+		for o := 0; o < len(pd); o += 50000 {
+			if _, werr := pw.Write(pd[o:min(len(pd), o+50000)]); werr != nil {
+				break
+			}
+		}
+		perr = pw.Close()
+		if s.Prelude == "good-first" && !woundMode && perr != nil {
+			res.Violate("valid-data-rejected", desc, "first lifetime (signed content): "+perr.Error())
+		}
+		if woundMode {
+			// everything the first lifetime emitted has been received once this marker has
+			sentinel := &pwr.Wound{Index: -77}
+			vp.Wounds <- sentinel
+			vp.Wounds <- sentinel
+			preludeWounds = true
+		}
+		res.Add("second_lifetimes_of_a_file_in_one_pool", 1)
+	}
 	var w io.WriteCloser
 	var pb bowl.Bowl
 	if s.Via != "" {
@@ -424,6 +478,14 @@ func c18Run(c lib.Case, env *lib.Env) lib.Result {
 	if woundMode {
 		close(vp.Wounds)
 		wg.Wait()
+		if preludeWounds { // keep what came after the marker
+			for k := len(wounds) - 1; k >= 0; k-- {
+				if wounds[k].Index == -77 {
+					wounds = wounds[k+1:]
+					break
+				}
+			}
+		}
 	}
 	res.Add("writer_lifetimes", 1)
 	got := inner.data[1]
@@ -533,7 +595,7 @@ func c18Run(c lib.Case, env *lib.Env) lib.Result {
 			}
 		}
 	}
-	res.Feat = []string{fmt.Sprintf("S=%d|%s|slice=%d|%s%s", s.SSize, s.DKind, s.Slice, s.Mode, s.Via)}
+	res.Feat = []string{fmt.Sprintf("S=%d|%s|slice=%d|%s%s%s", s.SSize, s.DKind, s.Slice, s.Mode, s.Via, s.Prelude)}
 	if c.ID%211 == 0 {
 		res.Sample = map[string]interface{}{"signedSize": s.SSize, "written": s.DKind, "arg": s.Arg, "writtenLen": len(D), "slice": s.Slice, "mode": s.Mode, "firstBadBlock": bstar, "innerBytes": len(got), "wounds": len(wounds)}
 	}
@@ -575,7 +637,7 @@ func init() {
 	lib.Register(&lib.Property{
 		ID:          "C18",
 		Level:       "exploration",
-		Rule:        "signed content S of {0,1,B-1,B,B+1,2B,2B+77,5B} bytes; written data D = S, every block-aligned prefix, non-aligned prefixes, S with one flipped bit in every non-empty subset of its blocks (<=5 blocks), one block deleted / duplicated / two adjacent swapped (a wrong block then equals the next signed block), S extended by {1,B-1,B,B+1}; write slicings {1 (small S), 7, 4096, B-1, B, B+1, 2B+5, all, random}; modes: error (driver stops after a failed Write and Closes; or ignores the error and keeps writing), wound (raw and through AggregateWounds). The same (S, D) classes are also written the patcher's way: through a pool bowl whose output pool is the validating pool, by its entry writer (Resume(nil), Write.., Finalize, Close, Tell checked) and by Transpose out of a target pool holding D (plain and short-reading). The inner pool records every byte it receives. Oracle: block-wise comparison against S by the harness. distinct = distinct (|S|, D kind, slicing, mode)",
+		Rule:        "signed content S of {0,1,B-1,B,B+1,2B,2B+77,5B} bytes; written data D = S, every block-aligned prefix, non-aligned prefixes, S with one flipped bit in every non-empty subset of its blocks (<=5 blocks), one block deleted / duplicated / two adjacent swapped (a wrong block then equals the next signed block), S extended by {1,B-1,B,B+1}; write slicings {1 (small S), 7, 4096, B-1, B, B+1, 2B+5, all, random}; modes: error (driver stops after a failed Write and Closes; or ignores the error and keeps writing), wound (raw and through AggregateWounds). A second lifetime of the same file in the same pool (after a complete good or bad first one) is judged the same way. The same (S, D) classes are also written the patcher's way: through a pool bowl whose output pool is the validating pool, by its entry writer (Resume(nil), Write.., Finalize, Close, Tell checked) and by Transpose out of a target pool holding D (plain and short-reading). The inner pool records every byte it receives. Oracle: block-wise comparison against S by the harness. distinct = distinct (|S|, D kind, slicing, mode)",
 		Assumptions: []string{"blocks beyond the signed block count are only required to be wounds, their ranges are not judged", "with the aggregating filter a beyond-signed wound may be merged into a preceding wound"},
 		Cases:       c18Cases,
 		Run:         c18Run,
